@@ -11,7 +11,7 @@ from ..engine.absint import PyExc, Unsupported
 from ..engine.cfg import build_cfg, stmt_of
 from ..engine.loader import AnalysisError, Func, dotted, norm, walk_no_nested
 from ..engine.report import Check, fkey
-from ..engine.sta import AbstractCompiler, compiled_graph, spec_graph, bisimilar, SpecError, show
+from ..engine.sta import WholeCompiler, compiled_graph, spec_graph, bisimilar, SpecError, show
 from ..spec.skeletons import all_skeletons
 
 SPECIAL = "explorerscript.ssb_converting.ssb_special_ops"
@@ -29,7 +29,8 @@ def _sta_worker(args: tuple[str, bool, int, int]) -> dict[str, Any]:
     fold = Folder(repo)
     branch = set(fold.const(f"{SPECIAL}:OPS_BRANCH")) | {"Case", "CaseMenu", "CaseMenu2", "CaseValue", "CaseVariable", "CaseScenario", "Call"}
     ends = set(fold.const(f"{SPECIAL}:OPS_THAT_END_CONTROL_FLOW")) - {fold.const(f"{SPECIAL}:OP_JUMP")}
-    ac = AbstractCompiler(repo, fold)
+    from ..engine.g4 import load_grammar
+    ac = WholeCompiler(repo, fold, load_grammar(repo, "ExplorerScript"))
     counts: dict[str, int] = {}
     bad: dict[str, list[tuple[int, str, str]]] = {}
     unknown: dict[str, tuple[str, str]] = {}
@@ -41,7 +42,7 @@ def _sta_worker(args: tuple[str, bool, int, int]) -> dict[str, Any]:
             continue
         total += 1
         counts[family] = counts.get(family, 0) + 1
-        text = " | ".join(f"def {i} {{ {show(r)} }}" for i, r in enumerate(prog))
+        text = " ".join(f"def {i} {{ {show(r)} }}" for i, r in enumerate(prog))
         try:
             try:
                 sg, se = spec_graph(prog)
@@ -49,7 +50,8 @@ def _sta_worker(args: tuple[str, bool, int, int]) -> dict[str, Any]:
             except SpecError as e:
                 spec_rejects = str(e)
             try:
-                out = ac.compile(prog)
+                res = ac.compile(text)
+                out = res["routine_ops"]
                 comp_rejects = None
             except PyExc as e:
                 comp_rejects = f"{e.cls_name}: {e.msg}"
@@ -86,7 +88,7 @@ def sta_rule(chk: Check, ctx: Any, rule: str, thorough: bool) -> None:
     from concurrent.futures import ProcessPoolExecutor
     repo = ctx.repo
     t0 = time.time()
-    n = max(1, min(16, (os.cpu_count() or 2)))
+    n = max(1, min(16, int(os.environ.get("ESV_WORKERS") or (os.cpu_count() or 2))))
     jobs = [(str(repo.root), thorough, k, n) for k in range(n)]
     try:
         with ProcessPoolExecutor(max_workers=n) as ex:
@@ -324,7 +326,7 @@ def _expect_param(p: Any) -> str:
 
 def forms_compiled_rule(chk: Check, ctx: Any, rule: str) -> None:
     from ..engine.dispatch import statement_visitor_table
-    from ..engine.sta import TreeCompiler
+    from ..engine.sta import TreeCompiler, WholeCompiler
     from ..engine.absint import AObj
     from ..spec import language_forms as LF
     repo = ctx.repo
@@ -345,12 +347,17 @@ def forms_compiled_rule(chk: Check, ctx: Any, rule: str) -> None:
     chk.decide(rule, "dispatch:exhaustive", not missing, sv.mod, f"parser rules without a compile handler in StatementVisitor: {missing} (the construct compiles to nothing or fails)",
                f"{len(needs)} rules dispatched")
     branch_ops = set(fold.const(f"{SPECIAL}:OPS_BRANCH"))
-    tc = TreeCompiler(repo, fold, disp)
+    wc = WholeCompiler(repo, fold, g)
+    pr = TreeCompiler(repo, fold, disp).param_repr
     anchor = sv.mod
     n_forms = 0
     samples: list[str] = []
+    # the fragment is compiled inside a whole program: source text -> parse tree -> visitors -> handlers -> post-passes, all interpreted
+    WRAP = {"if": ("def 0 {{ if ({}) {{ zz(); }} end; }}", 0, 1, True), "switch": ("def 0 {{ switch ({}) {{ case 1: zz(); }} end; }}", 0, 1, False),
+            "case": ("def 0 {{ switch ($S) {{ case {}: zz(); }} end; }}", 1, 2, True), "stmt": ("def 0 {{ {} zzend(); }}", 0, None, False),
+            "case-scn": ("def 0 {{ switch (scn($S)[0]) {{ case {}: zz(); }} end; }}", 1, 2, True)}
 
-    def run_form(kind: str, start: str, text: str, spec_fn: Any, extract: Any) -> None:
+    def run_form(kind: str, start: str, text: str, spec_fn: Any, where: str) -> None:
         nonlocal n_forms
         n_forms += 1
         key = f"form:{kind}:{text}"
@@ -367,64 +374,60 @@ def forms_compiled_rule(chk: Check, ctx: Any, rule: str) -> None:
             want_rej = None
         except LF.Rejected as e:
             want, want_n, want_rej = None, None, str(e)
-        cc = tc.new_context(PERF)
+        tmpl, lo, hi, drop_target = WRAP[where]
+        program = tmpl.format(text)
         try:
-            hs = tc.build(tree, cc)
-            got = extract(hs, cc)
+            res = wc.compile(program, PERF)
+            ops = res["routine_ops"][0]
+            got = []
+            for op in ops[lo:hi]:
+                name = op.attrs["op_code"].attrs["name"]
+                if where == "stmt" and name == "zzend":
+                    break
+                ps = [pr(p) for p in op.attrs["params"]]
+                got.append((name, ps[:-1] if drop_target else ps))
             got_rej = None
+        except SpecError:
+            chk.unknown(rule, key, anchor, f"`{program}` does not parse with the grammar")
+            return
         except PyExc as e:
             got, got_rej = None, f"{e.cls_name}: {e.msg}"
             if e.cls_name not in ("SsbCompilerError", "ValueError") and want_rej is None:
-                chk.violation(rule, key, anchor, f"`{text}`: the handlers fail with {e.cls_name} ({e.msg}) at {e.where}")
+                chk.violation(rule, key, anchor, f"`{program}`: the compiler fails with {e.cls_name} ({e.msg}) at {e.where}")
                 return
         except Unsupported as e:
-            chk.unknown(rule, key, anchor, f"`{text}`: abstract interpretation left the modelled subset: {e}")
+            chk.unknown(rule, key, anchor, f"`{program}`: abstract interpretation left the modelled subset: {e}")
             return
         if want_rej is not None:
-            chk.decide(rule, key, got_rej is not None, anchor, f"`{text}` is meaningless ({want_rej}) but compiles to {got}", "rejected as specified")
+            chk.decide(rule, key, got_rej is not None, anchor, f"`{program}` is meaningless ({want_rej}) but compiles to {got}", "rejected as specified")
             return
         if got_rej is not None:
-            chk.violation(rule, key, anchor, f"`{text}` is valid but the compiler rejects it: {got_rej}")
+            chk.violation(rule, key, anchor, f"`{program}` is valid but the compiler rejects it: {got_rej}")
             return
         if len(samples) < 10:
-            samples.append(f"{text} -> {got}")
+            samples.append(f"{program} -> {got}")
         chk.decide(rule, key, got == want_n, anchor,
-                   f"`{text}` compiles to {got}; the language specification assigns {want_n} (opcode and parameters in this order)", f"{want_n}")
+                   f"`{text}` (in `{program}`) compiles to {got}; the language specification assigns {want_n} (opcode and parameters in this order)", f"{want_n}")
 
-    def blueprint(hs: list[Any], cc: Any) -> list[tuple[str, list[str]]]:
-        bp = tc.collect(hs[0])
-        if not isinstance(bp, AObj):
-            raise Unsupported("header did not produce a blueprint")
-        return [(bp.attrs["op_code_name"], [tc.param_repr(p) for p in bp.attrs["params"]])]
-
-    def ops_of(hs: list[Any], cc: Any) -> list[tuple[str, list[str]]]:
-        out = []
-        for h in hs:
-            res = tc.collect(h)
-            for op in (res if isinstance(res, list) else [res]):
-                if not isinstance(op, AObj):
-                    raise Unsupported("collect() result is not an op")
-                if op.cls.name == "SsbLabelJump":
-                    op = op.attrs["_root"]
-                out.append((op.attrs["op_code"].attrs["name"], [tc.param_repr(p) for p in op.attrs["params"]]))
-        return out
+    blueprint = "if"
+    ops_of = "stmt"
 
     ops_notation = list(LF.COND_NOTATION.values())
     for n in ops_notation:
         run_form("if", "if_header", f"$A {n} 0x15", lambda t: [LF.if_header(t, PERF, branch_ops)], blueprint)
         run_form("if", "if_header", f"$A {n} value($B)", lambda t: [LF.if_header(t, PERF, branch_ops)], blueprint)
         run_form("if-scn", "if_header", f"scn($A) {n} [3, 4]", lambda t: [LF.if_header(t, PERF, branch_ops)], blueprint)
-        run_form("case", "case_header", f"{n} 7", lambda t: [LF.case_header(t, "Switch")], blueprint)
-        run_form("case", "case_header", f"{n} value($B)", lambda t: [LF.case_header(t, "Switch")], blueprint)
+        run_form("case", "case_header", f"{n} 7", lambda t: [LF.case_header(t, "Switch")], "case")
+        run_form("case", "case_header", f"{n} value($B)", lambda t: [LF.case_header(t, "Switch")], "case")
     for w in ("debug", "edit", "variation"):
         run_form("if", "if_header", w, lambda t: [LF.if_header(t, PERF, branch_ops)], blueprint)
         run_form("if", "if_header", f"not {w}", lambda t: [LF.if_header(t, PERF, branch_ops)], blueprint)
     for src in ("$A[3]", "not $A[3]", f"{PERF}[3]", f"not {PERF}[3]", "BranchSum(1, 2, 3)", "BranchExecuteSub(CORO_X)", "foo(1)"):
         run_form("if", "if_header", src, lambda t: [LF.if_header(t, PERF, branch_ops)], blueprint)
     for src in ("$A", "5", "scn($A)[0]", "scn($A)[1]", "scn($A)[2]", "random(5)", "dungeon_mode(DUNGEON_X)", "sector()", "message_Menu(MENU_X)", "ProcessSpecial(1, 2, 3)"):
-        run_form("switch", "switch_header", src, lambda t: [LF.switch_header(t)], lambda hs, cc: ops_of(hs, cc))
+        run_form("switch", "switch_header", src, lambda t: [LF.switch_header(t)], "switch")
     for src in ("5", "CONST_X", "menu('Yes')", "menu2(3)"):
-        run_form("case", "case_header", src, lambda t: [LF.case_header(t, "Switch")], blueprint)
+        run_form("case", "case_header", src, lambda t: [LF.case_header(t, "Switch")], "case")
     for n in LF.CALC_NOTATION.values():
         run_form("assign", "simple_stmt", f"$A {n} 5;", lambda t: LF.simple_stmt(t, PERF), ops_of)
         run_form("assign", "simple_stmt", f"$A {n} value($B);", lambda t: LF.simple_stmt(t, PERF), ops_of)
@@ -442,5 +445,113 @@ def forms_compiled_rule(chk: Check, ctx: Any, rule: str) -> None:
         run_form("with", "stmt", f"with ({kind} 7) {{ foo(1); }}", lambda t, kind=kind: [(LF.CTX_OPS[kind], [t.sub("ctx_block").sub("ctx_header").sub("integer_like").first_token()])]
                  + LF.simple_stmt(t.sub("ctx_block").sub("simple_stmt"), PERF), ops_of)
     run_form("with", "stmt", "with (actor 7) { §lbl; }", lambda t: (_ for _ in ()).throw(LF.Rejected("label in with")), ops_of)
+    for n in ops_notation:
+        run_form("case-scn", "case_header", f"{n} 7", lambda t: [LF.case_header(t, "SwitchScenario")], "case-scn")
+    run_form("case-scn", "case_header", "7", lambda t: [LF.case_header(t, "SwitchScenario")], "case-scn")
+    # routine headers: id, kind, target, coroutine name
+    RT = {"actor": "ACTOR", "object": "OBJECT", "performer": "PERFORMER"}
+    hdrs: list[tuple[str, list[tuple[str, int, str | None, str | None]]]] = [
+        ("def 0 { a(); } def 1 { b(); }", [("GENERIC", 0, None, None), ("GENERIC", 0, None, None)]),
+        ("coro First { a(); } coro Second { b(); }", [("COROUTINE", 0, None, "First"), ("COROUTINE", 0, None, "Second")]),
+        ("def 0 { a(); } def 1 { alias previous; }", [("GENERIC", 0, None, None), ("GENERIC", 0, None, None)]),
+    ]
+    for kw, en in RT.items():
+        hdrs.append((f"def 0 for {kw} 5 {{ a(); }} def 1 for {kw} ID_X {{ b(); }} def 2 for_{kw}(0x10) {{ c(); }} def 3 for {kw} 1.5 {{ d(); }}",
+                     [(en, 5, None, None), (en, -1, "ID_X", None), (en, 16, None, None), (en, -1, "1.5", None)]))
+    for program, want_infos in hdrs:
+        n_forms += 1
+        key = f"routine-header:{program}"
+        try:
+            res = wc.compile(program, PERF)
+            got_infos = []
+            for info, name in zip(res["routine_infos"], res["named_coroutines"]):
+                a = info.attrs
+                got_infos.append((a["type"].name, a["linked_to"], a["linked_to_name"], name if isinstance(name, str) else None))
+            n_ops = [len(r) for r in res["routine_ops"]]
+            ok = got_infos == want_infos and all(n >= 1 for n in n_ops[:1])
+            chk.decide(rule, key, ok, anchor, f"`{program}` yields routine infos {got_infos}; the routine headers say {want_infos} (kind, target id, target name, coroutine name)",
+                       f"{want_infos}")
+        except SpecError:
+            chk.unknown(rule, key, anchor, f"`{program}` does not parse with the grammar")
+        except PyExc as e:
+            chk.violation(rule, key, anchor, f"`{program}` is valid but the compiler fails with {e.cls_name}: {e.msg}")
+        except (Unsupported, KeyError, AttributeError) as e:
+            chk.unknown(rule, key, anchor, f"`{program}`: abstract interpretation left the modelled subset: {e!r}")
+    n_forms += rejection_forms(chk, ctx, rule, wc)
     chk.floor(rule, "syntactic forms compiled abstractly", n_forms, 100)
     chk.extra["forms_compiled"] = {"forms": n_forms, "samples": samples}
+
+
+REJECTED_PROGRAMS = (
+    ("def 1 { a(); } def 0 { b(); }", "routines out of id order"),
+    ("def 0 { break; }", "break outside a switch case"),
+    ("def 0 { if ($A == 1) { break; } }", "break outside a switch case"),
+    ("def 0 { continue; }", "continue outside a loop"),
+    ("def 0 { break_loop; }", "break_loop outside a loop"),
+    ("def 0 { switch ($S) { case 1: continue; } }", "continue in a switch that is not in a loop"),
+    ("def 0 { switch ($S) { case 1: break_loop; } }", "break_loop in a switch that is not in a loop"),
+    ("def 0 { forever { a(); } break_loop; }", "break_loop after the loop has ended"),
+    ("def 0 { while ($A == 1) { a(); } continue; }", "continue after the loop has ended"),
+    ("def 0 { for ($A = 0; $A < 3; $A += 1;) { a(); } break_loop; }", "break_loop after the loop has ended"),
+    ("def 0 { switch ($S) { case 1: a(); break; } break; }", "break after the switch has ended"),
+    ("def 0 { jump @nowhere; }", "jump to a label that does not exist"),
+    ("def 0 { call @nowhere; }", "call of a label that does not exist"),
+    ("def 0 { a(); } def 1 { jump @gone; §here; b(); }", "jump to a label that does not exist"),
+    ("def 0 { switch ($S) { case 1: } }", "switch ends in a case without block"),
+    ("def 0 { switch ($S) { case 1: a(); break; case 2: } }", "switch ends in a case without block"),
+    ("def 0 { switch ($S) { default: a(); break; default: b(); } }", "two defaults"),
+    ("def 0 { message_SwitchTalk ($S) { case 1: a(); } }", "statements inside a message switch"),
+    ("def 0 { message_SwitchMonologue ($S) { case 1: 'x' default: b(); } }", "statements inside a message switch"),
+    ("def 0 { switch ($S) { case 1: 'text' } }", "a string instead of statements in an ordinary switch"),
+    ("def 0 { with (actor 7) { §lbl; } }", "label inside a with-block"),
+    ("def 0 { if (not $A[3]) { x(); } }", "`not` on a bit test of an ordinary variable"),
+    ("def 0 { while (not $A[3]) { x(); } }", "`not` on a bit test of an ordinary variable"),
+    ("def 0 { if (foo(1)) { x(); } }", "condition is not a branch operation"),
+    ("def 0 { ~nothing(); }", "call of an unknown macro"),
+)
+
+DEGENERATE_PROGRAMS = (
+    "def 0 { §a; }", "def 0 { §a; §b; }", "def 0 { §a; jump @a; }", "def 0 { jump @a; §a; }", "def 0 { alias previous; }", "def 0 { a(); } def 1 { alias previous; }",
+    "def 0 { switch ($S) { } }", "def 0 { forever { } }", "def 0 { if ($A == 1) { } }", "def 0 { if ($A == 1) { } else { } }", "def 0 { while ($A == 1) { } }",
+    "def 0 { switch ($S) { default: } }", "def 0 { with (actor 7) { return; } }", "coro A { §a; }", "def 0 for actor 1.5 { §a; }", "def 0 { §a; call @a; }",
+)
+
+
+def rejection_forms(chk: Check, ctx: Any, rule: str, wc: Any = None, degenerate: bool = False) -> int:
+    """Statically meaningless programs are rejected with a documented error (and, with degenerate=True, degenerate but valid programs never
+    fail with anything else): the whole compiler is interpreted on the program text."""
+    from ..engine.sta import WholeCompiler
+    repo = ctx.repo
+    if wc is None:
+        wc = WholeCompiler(repo, ctx.fold, ctx.grammar_exps)
+    anchor = repo.func("explorerscript.ssb_converting.ssb_compiler:ExplorerScriptSsbCompiler.compile")
+    n = 0
+    for program, why in REJECTED_PROGRAMS:
+        n += 1
+        key = f"rejected:{program}"
+        try:
+            wc.compile(program, "$PERF")
+            chk.violation(rule, key, anchor, f"`{program}` is meaningless ({why}) but compiles and yields output")
+        except SpecError:
+            chk.unknown(rule, key, anchor, f"`{program}` does not parse with the grammar")
+        except PyExc as e:
+            chk.decide(rule, key, e.cls_name in ("SsbCompilerError", "ValueError"), anchor,
+                       f"`{program}` ({why}) fails with {e.cls_name} ({e.msg}) instead of ParseError, SsbCompilerError or ValueError", f"rejected: {e.cls_name}")
+        except Unsupported as e:
+            chk.unknown(rule, key, anchor, f"`{program}`: abstract interpretation left the modelled subset: {e}")
+    if degenerate:
+        for program in DEGENERATE_PROGRAMS:
+            n += 1
+            key = f"degenerate:{program}"
+            try:
+                wc.compile(program, "$PERF")
+                chk.hold(rule, key, anchor, "compiles")
+            except SpecError:
+                chk.unknown(rule, key, anchor, f"`{program}` does not parse with the grammar")
+            except PyExc as e:
+                chk.decide(rule, key, e.cls_name in ("SsbCompilerError", "ValueError"), anchor,
+                           f"`{program}` fails with {e.cls_name} ({e.msg}) at {e.where}: only ParseError, SsbCompilerError and ValueError may leave compile()",
+                           f"rejected: {e.cls_name}")
+            except Unsupported as e:
+                chk.unknown(rule, key, anchor, f"`{program}`: abstract interpretation left the modelled subset: {e}")
+    return n
